@@ -195,6 +195,9 @@ func projectEdgesOntoPolylines(loop *s2.Loop, polylines []*s2.Polyline, threshol
 // Return an area formed by projecting the edges of the given polygon onto the paths present in the world matching the given query.
 // Paths beyond the given threshold in meters are ignored.
 func snapAreaEdges(context *api.Context, area b6.Area, query b6.Query, threshold float64) (b6.Area, error) {
+	if err := requireArea("snap-area-edges", area); err != nil {
+		return nil, err
+	}
 	thresholdAngle := b6.MetersToAngle(threshold)
 	snapped := make([]*s2.Polygon, 0, area.Len())
 	for i := 0; i < area.Len(); i++ {
